@@ -79,7 +79,7 @@ def run(tier):
     # ---- R: every value of the bounded model through all function variants of the real code
     seqs, nedges, nstates, unreach = cover(edges)
     c.notes.append("R: %d distinct edges (values) over %d states, %d replay sequences; each value goes through "
-                   "str, buf, gstr, gbuf, gstream with all five group characters (+ default-argument forms)" % (nedges, nstates, len(seqs)))
+                   "str, buf, gstr, gbuf, gstream with all seven group characters (+ default-argument forms)" % (nedges, nstates, len(seqs)))
     chunk = 16000                                    # values per driver run (keeps a trace file well below the output cap)
     for k in range(0, len(seqs), chunk):
         tag = "R%d" % (k // chunk)
@@ -90,7 +90,7 @@ def run(tier):
         c.validate(spec, "TraceInt2Str", "TraceInt2Str.cfg", tr, tag)
         if k == 0 and not c.violations:
             seen, groups, fns = coverage_of(tr)
-            if fns != {"str", "buf", "gstr", "gbuf", "gstream"} or len(groups) != 5:
+            if fns != {"str", "buf", "gstr", "gbuf", "gstream"} or len(groups) != 7:
                 raise MachineryError("replay trace lacks function variants / group characters: %s %s" % (sorted(fns), sorted(groups)))
         if not quick and k > 0:
             os.remove(tr)                            # thorough: 8 chunks of ~100 MB; the evidence keeps counts and samples
